@@ -45,7 +45,7 @@ def run(ctx):
     ctx.coverage["rule"] = ("every Conn operation (apiVersions, listOffsets, metadata v1/v6, brokers, controller, produce v2/v3/v7, fetch v2/v5/v10, "
                             "create/delete topics, findCoordinator, joinGroup v1/v2, heartbeat, leaveGroup, syncGroup, listGroups, offsetCommit, offsetFetch, "
                             "saslHandshake v0/v1, saslAuthenticate) x {no error, each error field with sampled codes incl. -1/32767/-32768/36, several fields at once} "
-                            "x random shapes (array lengths, null strings, record sets v1/v2) x a following operation (quick: 6 followers; thorough: all ops, all 21 codes, 3 repetitions). "
+                            "x random shapes (array lengths, null strings, record sets v1/v2) x a following operation drawn from all operations (quick: 6 codes per field, 3 repetitions; thorough: all 21 codes, 10 repetitions). "
                             "distinct_nontrivial = distinct cases in which a broker error code was reported by A or B")
     concrete = [d for d in dis if d.get("kind") == "disagreement" and not d["holds_on_impl"]]
     others = [d for d in dis if d not in concrete]
